@@ -13,7 +13,9 @@
 (*      aof   : NoAof | [dbs, db] = the dataset obtained by re-executing   *)
 (*              the append-only file so far on an empty server, and the    *)
 (*              database its replay connection has selected (C11),         *)
-(*      scripts : SHA1 digests (byte strings) of the scripts in the cache] *)
+(*      scripts : SHA1 digests (byte strings) of the scripts in the cache,  *)
+(*      bg    : NoBg | [hist] while a background save runs: for every key  *)
+(*              the entries (or Absent) it held since the save began (C10)]*)
 (* connection record = [db, authed, multi, queue, qerr, watch, subs, psubs, *)
 (*                      inbox]                                             *)
 (*   subs/psubs : channels / patterns subscribed; inbox : push frames the  *)
@@ -39,9 +41,11 @@ NotBlocked == [k |-> "no"]
 NewConn(S) == [db |-> 0, authed |-> (S.pass = NoPass), multi |-> FALSE, queue |-> <<>>, qerr |-> FALSE,
                watch |-> <<>>, subs |-> {}, psubs |-> {}, inbox |-> <<>>, closing |-> FALSE, blocked |-> NotBlocked]
 NoDump == [k |-> "nodump"]
+NoBg == [k |-> "nobg"]
+Absent == [t |-> "absent"]
 NoAof == [k |-> "noaof"]
 InitS == [dbs |-> [d \in DBs |-> EmptyK], conns |-> <<>>, pass |-> NoPass, bseq |-> 0, scans |-> <<>>, disk |-> NoDump,
-          aof |-> NoAof, scripts |-> {}]
+          aof |-> NoAof, scripts |-> {}, bg |-> NoBg]
 
 SOut(r, S) == {[r |-> r, S |-> S, dv |-> {}]}
 SFail(S) == SOut(RErr, S)
@@ -202,6 +206,31 @@ PurgeAllMust(dbs, tm) == [d \in DBs |-> DelAll(dbs[d], {k \in DOMAIN dbs[d] : Mu
 CmdSAVE(S, a, tm) ==
   IF Len(a) # 1 THEN SFail(S) ELSE SOut(ROk, [S EXCEPT !.disk = [k |-> "dump", dbs |-> S.dbs, at |-> tm]])
 
+(* BACKGROUND SAVE (C10).  While it runs clients keep writing.  The dump it produces holds, for every key in it,
+   an entry (value AND deadline together) that key actually had at one instant during the save; a key that was
+   absent at some instant may be missing. *)
+BgStart(S) == [S EXCEPT !.bg = [k |-> "bg", hist |-> [d \in DBs |-> [key \in DOMAIN S.dbs[d] |-> {S.dbs[d][key]}]]]]
+BgTrack(S0, S1) ==
+  IF S1.bg = NoBg THEN S1
+  ELSE [S1 EXCEPT !.bg.hist = [d \in DBs |->
+          IF S0.dbs[d] = S1.dbs[d] THEN S1.bg.hist[d]
+          ELSE LET h == S1.bg.hist[d]
+                   ks == DOMAIN h \cup DOMAIN S0.dbs[d] \cup DOMAIN S1.dbs[d]
+                   at(X, key) == IF key \in DOMAIN X.dbs[d] THEN X.dbs[d][key] ELSE Absent
+               IN [key \in ks |-> (IF key \in DOMAIN h THEN h[key] ELSE {Absent}) \cup {at(S0, key), at(S1, key)}]]]
+BgDone(S) == [S EXCEPT !.disk = [k |-> "multi", hist |-> S.bg.hist], !.bg = NoBg]
+
+RECURSIVE DbChoices(_, _)
+DbChoices(h, ks) ==
+  IF ks = {} THEN {EmptyK}
+  ELSE LET key == CHOOSE x \in ks : TRUE
+           rest == DbChoices(h, ks \ {key})
+       IN UNION {{IF e = Absent THEN R ELSE Put(R, key, e) : R \in rest} : e \in h[key]}
+RECURSIVE AllDbChoices(_, _, _)
+AllDbChoices(hist, d, acc) == \* acc: set of dbs functions built so far for databases < d
+  IF d >= NDB THEN acc
+  ELSE AllDbChoices(hist, d + 1, UNION {{[X EXCEPT ![d] = K2] : K2 \in DbChoices(hist[d], DOMAIN hist[d])} : X \in acc})
+
 (* the states a restart observed in tm may come up in: every connection is gone; deadlines survive to clock
    granularity (they are stored in ms of wall-clock time), so the intervals are widened by Eps *)
 Widen(e) == IF e.exp.k = "at" THEN [e EXCEPT !.exp.lo = @ - Eps, !.exp.hi = @ + Eps] ELSE e
@@ -210,9 +239,12 @@ PurgeAllDbs(Ds, d, tm) == \* Ds: set of dbs functions
   IF d >= NDB THEN Ds
   ELSE PurgeAllDbs(UNION {{[X EXCEPT ![d] = K2] : K2 \in PurgeChoices(X[d], tm)} : X \in Ds}, d + 1, tm)
 Restarted(S, tm) ==
-  LET base == IF S.disk = NoDump THEN [d \in DBs |-> EmptyK]
-              ELSE [d \in DBs |-> [k \in DOMAIN S.disk.dbs[d] |-> Widen(S.disk.dbs[d][k])]]
-  IN {[S EXCEPT !.dbs = X, !.conns = <<>>, !.scans = <<>>] : X \in PurgeAllDbs({base}, 0, tm)}
+  LET empty == [d \in DBs |-> EmptyK]
+      bases == IF S.disk = NoDump THEN {empty}
+               ELSE IF S.disk.k = "multi" THEN AllDbChoices(S.disk.hist, 0, {empty})
+               ELSE {S.disk.dbs}
+      wide == {[d \in DBs |-> [k \in DOMAIN B[d] |-> Widen(B[d][k])]] : B \in bases}
+  IN {[S EXCEPT !.dbs = X, !.conns = <<>>, !.scans = <<>>, !.bg = NoBg] : X \in PurgeAllDbs(wide, 0, tm)}
 
 -----------------------------------------------------------------------------
 (* SCRIPTS (C12).  TLA+ does not parse Lua: the harness generates every script from a small DSL and records the
@@ -465,7 +497,7 @@ Exec1(S, c, a, tm, obs, inTxn) ==
                [] name = "BRPOP" -> CmdBPOP(S, c, a, tm, obs, FALSE, inTxn)
                [] name = "?" -> SFail(S)
                [] OTHER -> SOut(RAny, S)
-  IN {[o EXCEPT !.S = ScanTrack(S, MarkWatch(S, o.S, d, name, a, o.r))] : o \in raw}
+  IN {[o EXCEPT !.S = BgTrack(S, ScanTrack(S, MarkWatch(S, o.S, d, name, a, o.r)))] : o \in raw}
 
 (* commands that are not queued inside MULTI *)
 TxnControl == {"MULTI", "EXEC", "DISCARD", "WATCH", "UNWATCH"}
@@ -496,7 +528,7 @@ Step(S, c, a, tm, obs) ==
 
 (* expiry of entries of database d as seen by a request in tm; watchers see the removal *)
 PurgeDb(S, d, tm) ==
-  {ScanTrack(S, MarkWatch(S, [S EXCEPT !.dbs[d] = K2], d, "GET", <<>>, RNil)) : K2 \in PurgeChoices(S.dbs[d], tm)}
+  {BgTrack(S, ScanTrack(S, MarkWatch(S, [S EXCEPT !.dbs[d] = K2], d, "GET", <<>>, RNil))) : K2 \in PurgeChoices(S.dbs[d], tm)}
 
 (* the server serves blocked client c with `frame` = <<key, element>> (C13):
    c waits on that key, the list has that element at the proper end, c blocked first among the waiters of that
